@@ -11,37 +11,56 @@ YearClass(ls) == IF \E i \in DOMAIN ls : ls[i].k = "HDTE" /\ ls[i].yy >= 70 THEN
 \* errors, and whether a malformed record still yields a fix, is left to the implementation (a more lenient or a
 \* stricter decoder is not an alarm).  Counts and instants are fixed only for sequences of the kind the encoder
 \* writes - an A record, valid date headers, plain 35-column B records, every fix after a date header.
-StdLine(l) == \/ l.k = "A"
+StdLine(l) == \/ l.k \in {"A", "H"}
               \/ (l.k = "HDTE" /\ ~l.short /\ l.dd \in 1..31 /\ l.mm \in 1..12)
               \/ (l.k = "B" /\ l.len = 35 /\ l.ok)
 StdLines(c) == /\ Len(c.lines) > 0 /\ c.lines[1].k = "A"
                /\ \A i \in DOMAIN c.lines : StdLine(c.lines[i])
                /\ \A i \in DOMAIN c.fixes : c.fixes[i][3] = 1
-VLines(r) ==
-  LET c == r.case IN
+\* "returns ... the list of record errors": the error of Read is nil or the documented igc.Errors list - there is no other
+\* error an in-memory reader can cause.  (A line beyond the 64 KiB a line scanner buffers is exempt: an implementation may
+\* report the scanner's own error there.)  errkind: "nil", "Errors", or the Go type of anything else.
+ErrKindOK(r) == r.errkind \in {"nil", "Errors"} \/ r.maxline > 65535
+\* c: the case with what the decoder model gives for its lines (nfix, nerr, fixes); judgeTimes: whether the instants are fixed
+VLinesC(r, c, judgeTimes) ==
   IF r.ev # "ok" THEN Bad("igc|decode|" \o r.ev)
   ELSE IF ~Whole(r) THEN Bad("igc|decode|not-whole-fixes")
+  ELSE IF ~ErrKindOK(r) THEN Bad("igc|decode|error-kind")
   ELSE IF ~StdLines(c) THEN OK
   ELSE IF r.nfix # c.nfix THEN Bad("igc|decode|fix-count")
   ELSE IF r.nerr # c.nerr THEN Bad("igc|decode|error-count")
-  ELSE IF \E i \in DOMAIN c.fixes : r.times[i] # <<c.fixes[i][1], c.fixes[i][2]>> THEN Bad("igc|decode|timestamp" \o YearClass(c.lines))
+  ELSE IF judgeTimes /\ \E i \in DOMAIN c.fixes : r.times[i] # <<c.fixes[i][1], c.fixes[i][2]>> THEN Bad("igc|decode|timestamp" \o YearClass(c.lines))
+  \* "returns ... its headers": the H records of a standard file, in file order
+  ELSE IF r.hdrs # Headers(c.lines, 1) THEN Bad("igc|decode|headers")
   ELSE OK
+VLines(r) == VLinesC(r, r.case, TRUE)
+\* generated line sequences (seeded; H records, long flights with several day roll-overs): the decoder model of IGC.tla is
+\* evaluated here.  After a date header that names a day before the last fix's day the instants are not judged.
+VGLines(r) ==
+  LET s == Run(S0, r.case.lines, 1) IN
+  VLinesC(r, [lines |-> r.case.lines, nfix |-> Len(s.fixes), nerr |-> TotalErrors(s), fixes |-> s.fixes], ~s.backhdr)
 PoleClass(tr) == IF \E i \in DOMAIN tr : Abs(tr[i].latq) = 90 * 6000000 \/ Abs(tr[i].lonq) = 180 * 6000000 THEN "|pole-or-antimeridian" ELSE ""
 Year2(tr) == IF \E i \in DOMAIN tr : tr[i].t[1] < DaysFromCivil(2000, 1, 1) THEN "|19yy" ELSE ""
 VTracks(r) ==
   LET tr == r.case.track IN
   IF r.ev # "ok" THEN Bad("igc|roundtrip|" \o r.ev)
-  ELSE IF r.encerr # "" THEN Bad("igc|roundtrip|encode-error")
   ELSE IF ~Whole(r) THEN Bad("igc|roundtrip|not-whole-fixes")
+  ELSE IF ~ErrKindOK(r) THEN Bad("igc|roundtrip|error-kind")
+  ELSE IF ~InDomain(tr) THEN OK                   \* decreasing times, positions / dates outside the domain: totality only
+  ELSE IF r.encerr # "" THEN Bad("igc|roundtrip|encode-error")
   ELSE IF Len(r.got) # Len(tr) THEN Bad("igc|roundtrip|fix-count" \o PoleClass(tr))
   ELSE IF ~RoundTripOK(tr, r.got) THEN
          Bad("igc|roundtrip|" \o (IF \E i \in DOMAIN tr : r.got[i].t # tr[i].t THEN "timestamp" \o Year2(tr)
-                                  ELSE IF \E i \in DOMAIN tr : r.got[i].alt # Clamp(tr[i].alt, 0, 10000) THEN "altitude"
+                                  ELSE IF \E i \in DOMAIN tr : ~AltOK(tr[i], r.got[i]) THEN "altitude"
                                   ELSE "position" \o PoleClass(tr)))
+  \* the headers read back: the date of every new UTC day, in order (hdates: the first six characters of the value of every
+  \* DTE header; a writer that repeats a date header is not an alarm)
+  ELSE IF Dedup(r.hdates, 1) # TrackDates(tr) THEN Bad("igc|roundtrip|headers")
   ELSE OK
-\* arbitrary byte streams (mutated sample files): totality and whole fixes only
-VBytes(r) == IF r.ev # "ok" THEN Bad("igc|bytes|" \o r.ev) ELSE IF ~Whole(r) THEN Bad("igc|bytes|not-whole-fixes") ELSE OK
-Verdict(r) == CASE r.case.fam = "lines" -> VLines(r) [] r.case.fam = "tracks" -> VTracks(r) [] OTHER -> VBytes(r)
+\* arbitrary byte streams (mutated files, forged I records, random bytes, odd line endings, ...): totality and whole fixes only
+VBytes(r) == IF r.ev # "ok" THEN Bad("igc|bytes|" \o r.ev) ELSE IF ~Whole(r) THEN Bad("igc|bytes|not-whole-fixes")
+             ELSE IF ~ErrKindOK(r) THEN Bad("igc|bytes|error-kind") ELSE OK
+Verdict(r) == CASE r.case.fam = "lines" -> VLines(r) [] r.case.fam = "glines" -> VGLines(r) [] r.case.fam = "tracks" -> VTracks(r) [] OTHER -> VBytes(r)
 VARIABLES i, bad
 Init == i = 1 /\ bad = 0
 Next == /\ i <= Len(Recs)
